@@ -404,10 +404,17 @@ def request_side(S: Any) -> None:
     S.inputs.update({"chosen": chosen.name if chosen else None, "flag": flag, "empty_content_encoding": empty_ce})
     S.handlers["_CompressionMiddleware._pick_response_encoding"] = lambda S_, m, r: (chosen, flag)
 
+    other_headers: dict[str, Any] = {}
+
     def get_header(S_: Any, r: Any, name: Any, *a: Any, **k: Any) -> Any:
-        if name != "Content-Encoding":
-            raise Unsupported(f"contract view of the request has no header {name!r}")
-        return "" if empty_ce else None  # an uncoded request body: decoding is C17
+        if name == "Content-Encoding":
+            return "" if empty_ce else None  # an uncoded request body: decoding is C17
+        # any other header (the two accept headers included) is present with some value or absent: whatever the request
+        # carried, what is published for the producer must be this request's negotiated coding (by-contract `chosen`)
+        if name not in other_headers:
+            other_headers[name] = S.str("header_" + str(name).lower().replace("-", "_")) if S.choose(2) == 1 else None
+        v = other_headers[name]
+        return v if v is not None else (a[0] if a else k.get("default"))
 
     S.handlers["Request.get_header"] = get_header
     ctx = SObj(None, kind="ReqContext")
